@@ -96,7 +96,7 @@ def one(m, suite=False, all_checks=False):
                         keys.append(json.load(open(rp))["key"])
                     except Exception:
                         keys.append("?")
-            fired[c] = {"exit": r.returncode, "keys": keys}
+            fired[c] = {"exit": r.returncode, "keys": keys, "inconclusive": [ln.split("INCONCLUSIVE", 1)[1].strip()[:160] for ln in r.stdout.splitlines() if "] INCONCLUSIVE " in ln]}
             if r.returncode not in (0, 1):
                 fired[c]["tail"] = r.stdout[-600:]
         res["fired"] = fired
@@ -170,6 +170,10 @@ def main():
                 if not ok:
                     bad += 1
                 print("%s %-34s %s%s" % ("SILENT " if ok else "ALARM  ", m["name"], {c: v["keys"][:3] or v.get("tail", "")[-200:] for c, v in noisy.items()} if noisy else "", ("  suite_green=%s" % res.get("suite_green")) if suite else ""))
+                if "--show-inconclusive" in sys.argv:
+                    inc = sorted({x for v in fired.values() for x in v.get("inconclusive", [])})
+                    for x in inc:
+                        print("        undecided: " + x)
     # scratch facts are keyed by tree hash; prune those not belonging to /repo
     fd = os.path.join(VERIF, ".work", "facts")
     if os.path.isdir(fd):
